@@ -302,6 +302,11 @@ pub fn run(rep: &Report) {
     singles(rep, if t { 20_000 } else { 1500 }, false, rep.seed ^ 0x50);
     histories(rep, if t { 200_000 } else { 10_000 }, if t { 1024 } else { 64 }, false, rep.seed ^ 0x51);
     source_roundtrip(rep, if t { 200_000 } else { 12_000 }, false, rep.seed ^ 0x52);
+    crate::insplane::mixed_history(rep, if t { 40_000 } else { 500 }, 60, rep.seed ^ 0x145, "C05 among all instruction families", "xfer", &|i| match i {
+        Ins::Mov(..) | Ins::Xchg(..) | Ins::Push(_) | Ins::Pop(_) => true,
+        Ins::Simple(s) => ["lahf", "sahf", "pushf", "popf", "xlat"].contains(s),
+        _ => false,
+    });
     crate::insplane::edge_plane(rep, if t { 400_000 } else { 8000 }, rep.seed ^ 0xE5, false, "C05 data transfer at the end of memory", "xfer", &|rng| {
         let bl: Vec<&str> = crate::c01::BLABELS.iter().map(|x| x.0).collect();
         let wl: Vec<&str> = crate::c01::WLABELS.iter().map(|x| x.0).collect();
